@@ -412,12 +412,17 @@ def check_c14(prop, tier, replay, selftest):
     tr2 = tlc_trace("Trace_Bdd", out2, boundary=is_reset)
     res.add_trace(tr2)
     _collect_generic(prop, res, tr2, "bdd")
-    # the CLI's --export / --import and the no-overwrite rule
+    # the CLI's --export / --import and the no-overwrite rule: the directory machine CliFs, and sessions of the real binary followed with it
+    res.add_mc(require_mc(tlc_mc("CliFs", "CliFs.cfg", workers=8, timeout=600)))
     out3 = cli_trace(binary, tier, "C14")
     tr3 = tlc_trace("Trace_Cli", out3, min_per_shard=10)
     res.add_trace(tr3)
     cli_collect(prop, res, tr3)
+    for gl, t in tr3["tuples"]:
+        if gl is not None and t[0] == "DRIFT":
+            res.drift.append({"record": t[2], "what": t[3]})
     res.extra["cli_persistence_scenarios"] = sum(1 for l in tr3["lines"] if '"kind":"cli_persist"' in l)
+    res.extra["cli_directory_sessions"] = sum(1 for l in tr3["lines"] if '"kind":"cli_fs"' in l)
     npers = sum(1 for l in tr["lines"] + tr2["lines"] if '"kind":"persist"' in l)
     res.extra["persist_points"] = npers
     res.extra["drift_count"] = len(res.drift)
